@@ -46,7 +46,7 @@ Qed.
 Lemma unmarshal_leaf_no_crash typ data c : unmarshal_leaf typ data <> Crash c.
 Proof.
   unfold unmarshal_leaf. cbv zeta.
-  destruct (typ =? K.TypeDecimal). { destruct data; [destruct (_ <? 4)|]; discriminate. }
+  destruct (typ =? K.TypeDecimal). { destruct (_ =? 0); [discriminate|]. destruct (_ <? 4); discriminate. }
   destruct (typ =? K.TypeDate). { destruct (_ =? 0); [discriminate|]. destruct (_ <? 4); discriminate. }
   destruct ((typ =? K.TypeUUID) || (typ =? K.TypeTimeUUID)). { destruct ((_ =? 0) || (_ =? 16)); discriminate. }
   destruct (typ =? K.TypeDuration); [|discriminate].
@@ -429,7 +429,7 @@ Qed.
 Lemma unmarshal_leaf_no_fuel typ data : unmarshal_leaf typ data <> Err EFuel.
 Proof.
   unfold unmarshal_leaf. cbv zeta.
-  destruct (typ =? K.TypeDecimal). { destruct data; [destruct (_ <? 4)|]; discriminate. }
+  destruct (typ =? K.TypeDecimal). { destruct (_ =? 0); [discriminate|]. destruct (_ <? 4); discriminate. }
   destruct (typ =? K.TypeDate). { destruct (_ =? 0); [discriminate|]. destruct (_ <? 4); discriminate. }
   destruct ((typ =? K.TypeUUID) || (typ =? K.TypeTimeUUID)). { destruct ((_ =? 0) || (_ =? 16)); discriminate. }
   destruct (typ =? K.TypeDuration); [|discriminate].
